@@ -9,6 +9,10 @@ NOTE = ("Trusted: Lean 4.33 kernel; axioms propext, Classical.choice, Quot.sound
         "harness/translate.py; the correspondence check (differential testing, generator quality bounds what it sees). ")
 
 CHECKS = {
+    "C03": dict(
+        text="PARTIAL. Proved for ALL trees of elements (any depth/branching) at token level: parsing the basic-syntax tokens of a circuit pushes exactly its normal form (same-kind nesting merged, singleton series unwrapped, order preserved) and leaves the rest of the parser stack untouched (roundtrip_structure, roundtrip_structure_registry against the current registry) - the reason sub-circuits cannot capture siblings. The remaining clauses (parameter lists, labels, limits, sub-circuits, numbers, alternative spellings, identical re-serialisation, deep copies) are decided by the generator-as-oracle stream: a grammar-directed printer that knows the intended tree prints every circuit in alternative spellings; parse_cdc must return the intended circuit; every text is also parsed by the Lean model of tokenizer+parser, which reproduces float() bit-exactly (round-to-nearest-even over exact rationals), so values are compared exactly.",
+        ref="§4 C03", tech=TECH_H,
+        note=NOTE + "'%.{d}E' formatting is not modelled (runtime)."),
     "C18": dict(
         text="Proved on the model of progress.py over exact rationals: from a valid state every operation either raises the bookkeeping ValueError exactly when the counter would exceed the total, or yields a valid state and a fraction in [0,1] (step_unit), hence every notification of every operation sequence carries a fraction in [0,1] (emitted_fractions_in_unit_interval); perform_zhit announces exactly as many steps as it performs for every combination of smoothing/interpolation/window/custom-weight options and any number of window functions (zhit_increments_eq_total; the old accounting overshoots: old_zhit_accounting_overshoots), likewise fit_circuit. Tie: Progress is wrapped from the harness; every analysis run of the option cross product replays its recorded operations in the model and compares totals, increments and emitted fractions. PARTIAL: completion of the numerical code for each option combination (the full cross product in the thorough tier, a seeded sample in the quick tier) and the step accounting of the Kramers-Kronig and DRT entry points are conformance testing on the implementation, classified by the oracle (no IndexError/KeyError/…, no bookkeeping abort, no TypeError/ValueError escaping from inside numpy/scipy/lmfit).",
         ref="§4 C18", tech=TECH_H,
